@@ -391,7 +391,14 @@ def b_bool(ex, args, kwargs, st, sink, node):
     yield st, mk_bool(ex.truth(args[0]))
 
 
+def b_set(ex, args, kwargs, st, sink, node):
+    if args:
+        raise Unsupported("set(iterable)")
+    yield st, SV(SETT(REF("object")), z3.K(z3.IntSort(), z3.BoolVal(False)))  # empty set of objects
+
+
 EXTERNALS = {
+    "builtins.set": b_set,
     "struct.pack": struct_pack,
     "struct.unpack": struct_unpack,
     "struct.calcsize": struct_calcsize,
